@@ -88,8 +88,8 @@ package remote
 //@   prop C09 C05
 // C05: message content is handed only to a connection of the delivery's table, and never for a quarantined message.
 //@   assert-call (*smtpconn.C).Data : $c == conn.C && !rd.msgMeta.Quarantine
-//@   modifies gStCnt, mxConn.errored, mxConn.lastUseAt, *conn.C.cl, gosmtp.SMTPError.Code, gosmtp.SMTPError.EnhancedCode, sync.WaitGroup.sema, sync.WaitGroup.state
-//@   requires conn != nil && conn.C != nil && b != nil && c != nil && !rd.msgMeta.Quarantine
+//@   modifies gStCnt, mxConn.errored, mxConn.lastUseAt, *conn.C.cl, gosmtp.SMTPError.Code, gosmtp.SMTPError.EnhancedCode, sync.WaitGroup.sema, sync.WaitGroup.state, fsSt, fsData
+//@   requires conn != nil && conn.C != nil && conn.C.cl != nil && b != nil && c != nil && !rd.msgMeta.Quarantine
 //@   ensures forall r string :: gStCnt[r] == old(gStCnt)[r] + occ(old(conn.C.rcpts), len(old(conn.C.rcpts)), r)
 //@   loop 0 invariant forall r string :: gStCnt[r] == old(gStCnt)[r] + occ(old(conn.C.rcpts), rangeindex + 1, r)
 //@   loop 1 invariant forall r string :: gStCnt[r] == old(gStCnt)[r] + occ(old(conn.C.rcpts), rangeindex + 1, r)
